@@ -954,7 +954,7 @@ func c01PhaseBChains(emit func(cs *c01Case, alone bool)) {
 
 // ---- phase C: metadata constants ----
 
-var c01MetaNames = []string{"77", "abc", " 12 ", "-5", "9223372036854775808", "007", "0"}
+var c01MetaNames = []string{"77", "abc", " 12 ", "-5", "9223372036854775808", "007", "0", "12abc", "3.5", "1e3", "2021-06-01", "0x10", "7 days"}
 
 var c01MetaExprs = [][]string{
 	{"meta:@name"}, {"meta:@id"}, {"meta:@desc"}, {"meta:@sal"},
@@ -1206,12 +1206,12 @@ func init() {
 	hx.Register(&hx.Prop{
 		ID:          "C01",
 		Workers:     func(string) int { return 16 },
-		BudgetQuick: 120 * time.Second,
+		BudgetQuick: 300 * time.Second,
 		BudgetThor:  15 * time.Minute,
 		Kind:        "cases",
 		Rule: "rule texts `return <expr>`: (A) every string of <=2 (thorough <=3) binary operators out of 12 x every well-nested parenthesisation of contiguous operand runs x every placement of ! on boolean positions x 2 valuations (literals / injected) with type-directed distinguishing leaves, untypable strings kept (expected: error); " +
 			"(B) every atom of a 79-entry alphabet (literals, locals, injected values of all Go numeric kinds + string + bool at their boundaries) alone / parenthesised / negated / with negations and brackets directly nested in each other (`!(!a)`, `!((!a))`, `(!(!a))`, `!(!(!a))`, also around comparisons and logic), every operator x ordered pair of atoms, thorough: every two-operator arithmetic chain over 21 representatives; " +
-			"(C) @name @id @desc @sal alone and inside arithmetic / comparison / concatenation x 7 rule names x description present/absent x salience absent/negative/positive. " +
+			"(C) @name @id @desc @sal alone and inside arithmetic / comparison / concatenation x 13 rule names (decimal, signed, padded, leading zeros, beyond int64, alphabetic, a decimal prefix followed by other characters) x description present/absent x salience absent/negative/positive. " +
 			"Each text is one distinct program, executed once on the real engine and compared with ref/expr.go: value (dynamic Go type and bits) and nil error, or error and no result entry, never a panic",
 		Assume:     []string{"a text the rule builder rejects counts as failing with an error (only texts whose reference outcome is an error are affected)"},
 		Run:        c01RunAll,
